@@ -545,6 +545,10 @@ func (s *Store) CreateDB(name string) (db *DB, f *os.File, err error) {
 		TraceLog.Printf("[CreateDatabase(%s)]: %s", name, errorKeyValue(err))
 	}()
 
+	if !isValidDBName(name) {
+		return nil, nil, fmt.Errorf("invalid database name: %q", name)
+	}
+
 	s.mu.Lock()
 	defer s.mu.Unlock()
 
@@ -588,8 +592,18 @@ func (s *Store) CreateDB(name string) (db *DB, f *os.File, err error) {
 	return db, f, nil
 }
 
+// isValidDBName returns true if name is a plain file name. Every database
+// lives in a directory of that name directly under the "dbs" directory.
+func isValidDBName(name string) bool {
+	return name != "" && name != "." && name != ".." && name == filepath.Base(name)
+}
+
 // CreateDBIfNotExists creates an empty database with the given name.
 func (s *Store) CreateDBIfNotExists(name string) (*DB, error) {
+	if !isValidDBName(name) {
+		return nil, fmt.Errorf("invalid database name: %q", name)
+	}
+
 	s.mu.Lock()
 	defer s.mu.Unlock()
 
